@@ -1,5 +1,6 @@
 import Driver.Common
 import CoapVerif.Model.OwnershipPaths
+import CoapVerif.Model.OwnershipStale
 /-!
 Driver for C12, path programs of the observation callbacks and of the block-wise layer (`Model/OwnershipPaths.lean`).
 
@@ -14,6 +15,7 @@ events without `use` must be exactly the recorded events of the segment.
 -/
 namespace Driver.C12Paths
 open CoapVerif CoapVerif.Spec.Ownership CoapVerif.Model.Ownership CoapVerif.Model.OwnershipPaths
+open CoapVerif.Model.OwnershipStale
 
 def fmtEv : Ev → String
   | .acq o => s!"acq {o}" | .rel o => s!"rel {o}" | .hold o => s!"hold {o}" | .unhold o => s!"unhold {o}" | .poisonBad o => s!"poisonbad {o}"
@@ -69,6 +71,13 @@ def parseBw (name : String) (a : List Nat) : Option BwStep :=
   | "forwardReturn", [x] => some (.forwardReturn x)
   | "sweep", [] => some .sweep
   | _, _ => none
+
+/-- steps of the block-wise program with expired-but-unswept entries (`Model/OwnershipStale.lean`): `expire`, and every
+    step of `parseBw` -/
+def parseBwx (name : String) (a : List Nat) : Option BwxStep :=
+  match name, a with
+  | "expire", [] => some .expire
+  | _, _ => (parseBw name a).map .base
 
 /-- a trace item of a paths scenario -/
 inductive PItem
@@ -158,6 +167,6 @@ def matchProg {C St : Type} (p : Prog C St) (parse : String → List Nat → Opt
 def model (prog : String) (trace : String) : String :=
   let items := if trace = "-" then [] else (trace.splitOn ";").map parsePItem
   if prog == "obs" then matchProg obsCoded parseObs {} items
-  else matchProg bwCoded parseBw {} items
+  else matchProg bwxCoded parseBwx {} items
 
 end Driver.C12Paths
